@@ -1,5 +1,6 @@
 import PprofVerif.Lemmas.PruneLemmas
 import PprofVerif.Lemmas.PruneRepaired
+import PprofVerif.Lemmas.PruneOnly
 import Mathlib.Data.List.Forall2
 /-!
 # C11 — Frame-dropping rules remove only the frames they name
@@ -172,10 +173,34 @@ theorem removeUninteresting_anchored (compile : Str → Option Rx) (p : Profile)
   · rfl
   · cases compile (anchored p.keepFrames) <;> rfl
 
+/-- UNCONDITIONAL (no `PruneH`; holds in the known-finding families A and B too): drop/keep only
+ever REMOVES, and only from the leaf side — every sample's location list after `Prune` is a suffix
+(the root side) of its list before, and every location's line list is a suffix (the root side) of
+its lines before.  Nothing is added, reordered or removed from the root side. -/
+theorem prune_removes_only_leaf_side (p : Profile) (q : Str → Bool) :
+    (∀ s, (pruneSample p q s).locationIDs <:+ s.locationIDs) ∧
+    (∀ l, (pruneLoc p q l).lines <:+ l.lines ∧ (pruneLoc p q l).id = l.id) :=
+  ⟨pruneSample_suffix p q, fun l => ⟨pruneLoc_suffix p q l, pruneLoc_id p q l⟩⟩
+
+/-- "Remove only the frames they name", degenerate direction, for ALL profiles (valid or not): when
+no line of any location is named by the expressions, `Prune` is the identity on the whole profile. -/
+theorem prune_no_match_identity (p : Profile) (q : Str → Bool)
+    (h : ∀ l ∈ p.locations, ∀ ln ∈ l.lines, lineMatches p q ln = false) : pruneWith p q = p :=
+  pruneWith_no_match p q h
+
+/-- In particular an expression that matches no name leaves every profile untouched. -/
+theorem prune_never_matching_identity (p : Profile) : pruneWith p (fun _ => false) = p := by
+  apply pruneWith_no_match
+  intro l _ ln _
+  unfold lineMatches
+  split <;> simp
+
 -- non-vacuity: the hypotheses are satisfiable by non-trivial values (a sample whose first user
 -- location is clean, with a match further towards the leaf)
 example : PruneH witnessA (fun n => n == [108, 102]) ⟨[1, 2], [7], [], [], []⟩ := by decide
 example : PruneFromH witnessPF (fun n => n == [109]) ⟨[1, 2], [7], [], [], []⟩ := by decide
 example : frames witnessB ⟨[1, 2], [7], [], [], []⟩ ≠ [] := by decide
+-- `prune_no_match_identity`: witnessA has locations with lines, none named by this predicate
+example : ∀ l ∈ witnessA.locations, ∀ ln ∈ l.lines, lineMatches witnessA (fun n => n == [1, 2, 3]) ln = false := by decide
 
 end PV.Props.C11
